@@ -6,14 +6,6 @@ From XV Require Import Base.Str Base.Eqb Gen.SampleTables Model.Sample Model.Sam
 Import ListNotations.
 Open Scope N_scope.
 
-Lemma uniform_by_spec {A} (f : fclass -> A) (eqb : A -> A -> bool) all :
-  (forall x y, eqb x y = true -> x = y) ->
-  uniform_by f eqb all = true -> forall c d, In c all -> In d all -> c_qname c = c_qname d -> f c = f d.
-Proof.
-  intros He H c d Hc Hd Eq. unfold uniform_by in H. rewrite forallb_forall in H. specialize (H c Hc).
-  rewrite forallb_forall in H. specialize (H d Hd). rewrite Eq, str_eqb_refl in H. cbn in H. apply He. exact H.
-Qed.
-
 Lemma node_class_fields cv p m :
   c_qname (node_class cv p m) = class_qname p m /\ c_ns (node_class cv p m) = class_ns p m
   /\ c_nillable (node_class cv p m) = nil_flag (t_atts m) false.
@@ -31,42 +23,114 @@ Proof.
   destruct (is_nil_true v); [|apply orb_true_r]. rewrite (Nr eq_refl). reflexivity.
 Qed.
 
-Theorem ns_fit : forall cv (S : list tree),
-  g_ns_uniform cv S = true -> forallb (doc_ns_ok (classes_of_xml cv S)) S = true.
+(* ------------------------------------------------------------------ qualified names *)
+Lemma split_at_spec c : forall s l r, split_at c s = Some (l, r) -> s = l ++ c :: r /\ ~ In c l.
 Proof.
-  intros cv S G. apply forallb_forall. intros t Ht. unfold doc_ns_ok, classes_of_xml.
-  apply (for_all_class_nodes cv S); [|exact Ht]. intros p m Hin.
-  destruct (reduce_classes_spec _ (all_nodup cv _ (all_of_samples cv S)) _ Hin) as [r [Fr [_ [_ [_ [_ [_ [[f [Hf [Qf Nf]]] _]]]]]]]].
-  destruct (node_class_fields cv p m) as [Q [N _]]. rewrite Q in Fr. unfold node_ns_ok. rewrite Fr.
-  apply ostr_eqb_eq. rewrite Nf, <- N. eapply (uniform_by_spec c_ns ostr_eqb); eauto. intros x y. apply ostr_eqb_eq.
+  induction s as [|x s IH]; cbn; [discriminate|]. intros l r.
+  destruct (N.eqb_spec x c) as [->|Hne].
+  - intros [= <- <-]. split; [reflexivity|intros []].
+  - destruct (split_at c s) as [[a b]|]; [|discriminate]. intros [= <- <-].
+    destruct (IH a b eq_refl) as [E Hn]. split; [cbn; rewrite E; reflexivity|]. intros [H|H]; [congruence|contradiction].
 Qed.
 
-(* ------------------------------------------------------------------ refutations *)
-Definition s (x : list N) : str := x.
-Definition XSI_NIL_Q := qn_xsi_nil.
-Definition no_tests : sconv := sconv_of_table [].
+Lemma split_at_app c : forall l r, ~ In c l -> split_at c (l ++ c :: r) = Some (l, r).
+Proof.
+  induction l as [|x l IH]; intros r Hn; cbn.
+  - rewrite N.eqb_refl. reflexivity.
+  - destruct (N.eqb_spec x c) as [->|Hne]; [exfalso; apply Hn; left; reflexivity|].
+    rewrite IH; [reflexivity|]. intros H. apply Hn. right. exact H.
+Qed.
 
-(* <r><p xmlns="urn:b"><k xmlns="" a="1"/></p><q><k a="2"><t>2</t></k></q></r> :
-   the merged class of k has namespace None, the node below p has class namespace "" *)
+Lemma split_qname_Some q u n : split_qname q = (Some u, n) ->
+  q = 123 :: u ++ 125 :: n /\ u <> [] /\ n <> [] /\ ~ In 125 u.
+Proof.
+  unfold split_qname, text_split. destruct q as [|c0 r]; [discriminate|].
+  destruct (N.eqb_spec c0 123) as [->|Hne].
+  - destruct (split_at 125 r) as [[l rg]|] eqn:E; [|discriminate].
+    destruct rg as [|y rg]; [discriminate|]. destruct l as [|x l]; [discriminate|]. intros [= <- <-].
+    destruct (split_at_spec _ _ _ _ E) as [Er Hn]. split; [rewrite Er; reflexivity|]. repeat split; auto; discriminate.
+  - intros H. exfalso. revert H. destruct c0 as [|p]; [discriminate|].
+    repeat (destruct p as [p|p|]; try discriminate). congruence.
+Qed.
+
+Lemma split_qname_build u n : u <> [] -> n <> [] -> ~ In 125 u -> split_qname (123 :: u ++ 125 :: n) = (Some u, n).
+Proof.
+  intros Hu Hn H. unfold split_qname, text_split. rewrite split_at_app by exact H.
+  destruct n as [|y n]; [contradiction|]. destruct u as [|x u]; [contradiction|]. reflexivity.
+Qed.
+
+Lemma split_qname_None q n : split_qname q = (None, n) -> n = q.
+Proof.
+  unfold split_qname, text_split. destruct q as [|c0 r]; [intros [= <-]; reflexivity|].
+  destruct c0 as [|p]; [intros [= <-]; reflexivity|].
+  repeat (destruct p as [p|p|]; try (intros [= <-]; reflexivity)).
+  destruct (split_at 125 r) as [[l rg]|]; [|intros [= <-]; reflexivity].
+  destruct rg as [|y rg]; [intros [= <-]; reflexivity|]. destruct l as [|x l]; intros [= <-]; reflexivity.
+Qed.
+
+Lemma tags_differ : str_eqb tag_ELEMENT tag_ATTRIBUTE = false.
+Proof. vm_compute. reflexivity. Qed.
+
+(* the class of a node is either qualified — namespace u, qname {u}name — or unqualified — namespace None or "",
+   qname = the element name, which does not split *)
+Lemma node_class_kind cv p m :
+  let x := node_class cv p m in
+  (exists u n, c_ns x = Some u /\ u <> [] /\ n <> [] /\ ~ In 125 u /\ c_qname x = 123 :: u ++ 125 :: n)
+  \/ ((c_ns x = None \/ c_ns x = Some []) /\ fst (split_qname (c_qname x)) = None).
+Proof.
+  cbv zeta. destruct (node_class_fields cv p m) as [Q [N _]]. rewrite Q, N. unfold class_qname, class_ns, select_namespace.
+  rewrite tags_differ. destruct (split_qname (t_qn m)) as [[u|] n] eqn:E; cbn [fst snd].
+  - left. destruct (split_qname_Some _ _ _ E) as [Eq [Hu [Hn H125]]]. exists u, n.
+    split; [reflexivity|]. repeat split; auto. destruct u; [contradiction|]. destruct n; [contradiction|]. reflexivity.
+  - right. pose proof (split_qname_None _ _ E) as En. subst n.
+    assert (Hb : forall o, (o = None \/ o = Some []) -> build_qname o (t_qn m) = t_qn m).
+    { intros o [->| ->]; destruct (t_qn m); reflexivity. }
+    destruct p as [pn|].
+    + split; [right; reflexivity|]. rewrite Hb by (right; reflexivity). rewrite E. reflexivity.
+    + split; [left; reflexivity|]. rewrite Hb by (left; reflexivity). rewrite E. reflexivity.
+Qed.
+
+Lemma app_sep_inj (c : N) l1 r1 l2 r2 : ~ In c l1 -> ~ In c l2 -> l1 ++ c :: r1 = l2 ++ c :: r2 -> l1 = l2.
+Proof.
+  revert l2. induction l1 as [|x l1 IH]; intros [|y l2] H1 H2 E; cbn in *; try reflexivity.
+  - inversion E; subst. exfalso. apply H2. left. reflexivity.
+  - inversion E; subst. exfalso. apply H1. left. reflexivity.
+  - inversion E; subst. f_equal. eapply IH; eauto.
+Qed.
+
+Theorem ns_fit : forall cv (S : list tree), forallb (doc_ns_ok (classes_of_xml cv S)) S = true.
+Proof.
+  intros cv S. apply forallb_forall. intros t Ht. unfold doc_ns_ok, classes_of_xml.
+  apply (for_all_class_nodes cv S); [|exact Ht]. intros p m Hin.
+  destruct (reduce_classes_spec _ (all_nodup cv _ (all_of_samples cv S)) _ Hin) as [r [Fr [_ [_ [_ [_ [_ [[f [Hf [Qf [Nf Nn]]]] _]]]]]]]].
+  destruct (node_class_fields cv p m) as [Q [N _]]. rewrite Q in Fr. unfold node_ns_ok. rewrite Fr. rewrite <- N.
+  destruct (all_of_samples cv S f Hf) as [p' [m' ->]].
+  set (c := node_class cv p m) in *. set (f := node_class cv p' m') in *.
+  unfold ns_compat.
+  destruct (node_class_kind cv p m) as [[u [n [Cu [Hu [Hn [H125 Cq]]]]]]|[Cb Cs]]; fold c in Cu, Cq || fold c in Cb, Cs.
+  - (* the node is qualified: so is the first class of its group, with the same namespace *)
+    destruct (node_class_kind cv p' m') as [[u' [n' [Fu [Hu' [Hn' [H125' Fq]]]]]]|[Fb Fs]]; fold f in Fu, Fq || fold f in Fb, Fs.
+    + rewrite Fq, Cq in Qf. inversion Qf as [E]. apply app_sep_inj in E; auto. subst u'.
+      destruct Nf as [Nf|[Nf _]]; [|congruence]. rewrite Nf, Fu, Cu. apply orb_true_iff. left. apply ostr_eqb_eq. reflexivity.
+    + exfalso. rewrite Qf, Cq, split_qname_build in Fs by assumption. discriminate.
+  - destruct (node_class_kind cv p' m') as [[u' [n' [Fu [Hu' [Hn' [H125' Fq]]]]]]|[Fb Fs]]; fold f in Fu, Fq || fold f in Fb, Fs.
+    + exfalso. rewrite <- Qf, Fq, split_qname_build in Cs by assumption. discriminate.
+    + (* both unqualified *)
+      destruct Nf as [Nf|[Nf1 Nf2]].
+      * rewrite Nf. destruct Fb as [Fb|Fb]; rewrite Fb in *.
+        -- destruct Cb as [Cb|Cb]; [rewrite Cb; reflexivity|]. exfalso. apply (Nn Nf). exact Cb.
+        -- destruct Cb as [Cb|Cb]; rewrite Cb; reflexivity.
+      * rewrite Nf2. destruct Cb as [Cb|Cb]; rewrite Cb; reflexivity.
+Qed.
+
+(* several namespaces, unqualified elements below qualified and unqualified parents *)
+Definition no_tests : sconv := sconv_of_table [].
+Definition XSI_NIL_Q := qn_xsi_nil.
 Definition urn_b : str := [117;114;110;58;98].
 Definition w_ns : list tree :=
   [T [114] [] None None
      [T ([123] ++ urn_b ++ [125;112]) [] None None [T [107] [([97], [49])] None None []];
       T [113] [] None None [T [107] [([97], [50])] None None [T [116] [] (Some [50]) None []]]]].
-
-Theorem ns_fit_refuted : exists cv S, forallb (doc_ns_ok (classes_of_xml cv S)) S = false.
-Proof. exists no_tests, w_ns. vm_compute. reflexivity. Qed.
-
-(* the guards are not vacuous: a nil element, several namespaces *)
-Definition w_guard_ok : list tree :=
-  [T ([123] ++ urn_b ++ [125;114]) [] None None
-     [T [110] [([97], [49]); (XSI_NIL_Q, [116;114;117;101])] None None [];
-      T ([123] ++ urn_b ++ [125;109]) [([97], [50])] (Some [53]) None []]].
-
-Example guards_nonvacuous :
-  g_ns_uniform no_tests w_guard_ok = true
-  /\ existsb (fun t => existsb (fun k => match xsi_nil_of k with Some true => true | _ => false end) (t_kids t)) w_guard_ok = true.
-Proof. vm_compute. auto. Qed.
 
 (* ------------------------------------------------------------------ the other clauses of `regular`:
    statements about the merged classes that the faithful model falsifies (each witness also fails on the
